@@ -16,4 +16,5 @@ def bounded(ctx):
     c18.numbers(ctx)
     c18.colours(ctx)
     c18.strings_and_urls(ctx)
+    c18.hex_escapes(ctx)
     c18.separators(ctx)
